@@ -34,10 +34,13 @@ def generate(seed, tier):
         if i % 5 == 4:
             k = rng.randint(1, 9)
             names = [rng.choice(['n0', 'n1', 'n2', 'nodeA', 'n10']) for _ in range(k)]
+            if derived_rng(seed, 'C14d', i).random() < 0.4:       # names with dots that agree up to the first dot
+                rd = derived_rng(seed, 'C14d2', i)
+                names = [rd.choice(['c1.x', 'c1.y', '10.0.0.1', '10.0.0.2', 'n0']) for _ in range(k)]
             rb = derived_rng(seed, 'C14s', i)
             if rb.random() < 0.4:       # more ranks than any small-input shortcut of a sorting routine covers
                 k = rb.randint(17, 64)
-                pool = rb.sample(['n0', 'n1', 'n2', 'nodeA', 'n10', 'n11', 'x'], rb.randint(2, 5))
+                pool = rb.sample(['n0', 'n1', 'n2', 'nodeA', 'n10', 'n11', 'x', 'c1.x', 'c1.y', '10.0.0.1', '10.0.0.2'], rb.randint(2, 5))
                 names = [rb.choice(pool) for _ in range(k)]
             cases.append({'kind': 'socket', 'names': names})
             continue
@@ -329,39 +332,62 @@ def _oracle_mpi(inp, obs):
     return fails
 
 
+class _Sent(BaseException):
+    def __init__(self, item):
+        self.item = item
+
+
 class FakeComm(object):
-    def __init__(self, names):
-        self.names = names
+    """allgather is faithful to what the ranks SEND: in a first pass every rank's contribution is collected (the call is
+    cut short), in the second pass the gathered list is handed back"""
+    def __init__(self, names, rank=0, gathered=None):
+        self.names, self.rank, self.gathered = names, rank, gathered
 
     def Get_size(self):
         return len(self.names)
 
     def Get_rank(self):
-        return 0
+        return self.rank
 
-    def allgather(self, _):
-        return list(self.names)
+    def allgather(self, item):
+        if self.gathered is None:
+            raise _Sent(item)
+        return list(self.gathered)
 
 
 class FakeMPI(object):
-    def __init__(self, names):
-        self.COMM_WORLD = FakeComm(names)
-        self.names = names
+    def __init__(self, names, rank=0, gathered=None):
+        self.COMM_WORLD = FakeComm(names, rank, gathered)
+        self.names, self.rank = names, rank
 
     def Get_processor_name(self):
-        return self.names[0]
+        return self.names[self.rank]
 
 
 def run_impl(inp, work):
     if inp['kind'] == 'socket':
         from pyUSID.processing import comp_utils
         old = comp_utils.get_MPI
-        comp_utils.get_MPI = lambda: FakeMPI(inp['names'])
+        names = inp['names']
         try:
-            r = call(comp_utils.group_ranks_by_socket)
+            sent = []
+            for rk in range(len(names)):
+                comp_utils.get_MPI = lambda rk=rk: FakeMPI(names, rk)
+                try:
+                    comp_utils.group_ranks_by_socket()
+                    sent.append(names[rk])       # (a version that gathers nothing)
+                except _Sent as c:
+                    sent.append(c.item)
+            per_rank = []
+            for rk in (0, len(names) - 1):
+                comp_utils.get_MPI = lambda rk=rk: FakeMPI(names, rk, sent)
+                r = call(comp_utils.group_ranks_by_socket)
+                per_rank.append([int(x) for x in r[1]] if r[0] == 'ok' else {'err': r[1]})
         finally:
             comp_utils.get_MPI = old
-        return {'masters': [int(x) for x in r[1]]} if r[0] == 'ok' else {'err': r[1]}
+        if isinstance(per_rank[0], dict):
+            return {'err': per_rank[0]['err']}
+        return {'masters': per_rank[0], 'ranks_agree': per_rank[0] == per_rank[-1]}
     if inp['kind'] == 'skeleton':
         try:
             return {'prog': extract_skeleton()}
@@ -427,6 +453,8 @@ def oracle(inp, obs):
         want = [min(q for q in range(len(names)) if names[q] == names[r]) for r in range(len(names))]
         if obs.get('masters') != want:
             fails.append('socket-master: ranks sharing a processor name are not grouped under the lowest rank')
+        if obs.get('ranks_agree') is False:
+            fails.append('socket-master-ranks: the first and the last rank compute different groupings')
         return fails
     if inp['kind'] == 'skeleton':
         return []        # decided by the model: Safe(skeleton) is the hypothesis of theorem ranks_see_initial_status
@@ -504,7 +532,7 @@ def project(inp, obs):
     if inp['kind'] == 'skeleton':
         return {'safe': True}          # the hypothesis of ranks_see_initial_status must hold of the current source
     if inp['kind'] == 'socket':
-        return obs
+        return {k: v for k, v in obs.items() if k != 'ranks_agree'}
     if 'ranks' not in obs:
         return {'err': True}
     pend = [i for i, s in enumerate(inp['mask']) if s == 0]
